@@ -10,9 +10,9 @@ from pathlib import Path
 import common as C
 
 PROPERTIES = ["C04", "C05"]
-PROPS_BY = {"C04": ["Nstd.Life.Props"], "C05": ["Nstd.Life.PropsStable"]}
+PROPS_BY = {"C04": ["Nstd.Life.Props"], "C05": ["Nstd.Life.PropsStable", "Nstd.Life.PropsStableMech"]}
 DRIVER = "drv_life"
-LEAN_TARGETS = ["Nstd.Life.Props", "Nstd.Life.PropsStable", DRIVER]
+LEAN_TARGETS = ["Nstd.Life.Props", "Nstd.Life.PropsStable", "Nstd.Life.PropsStableMech", DRIVER]
 
 _COMMON_NOTE = ("Trusted: Lean kernel + the three standard axioms; the hand translation of the eight container headers into the slot-level "
                 "model Nstd/Life/Model.lean (validated on every run by the correspondence, not proved: identical op lines on the real headers and on "
@@ -23,8 +23,10 @@ _COMMON_NOTE = ("Trusted: Lean kernel + the three standard axioms; the hand tran
                 "tools/areas/life.py translate reads it from the sources (allocation size and free-list threading loop must agree) into "
                 "lean/Nstd/Generated/LifeConst.lean, the driver uses it, every theorem holds for every table N >= 1; the harness derives slot names from the "
                 "observed allocation. Modelled, not verified: AVL rebalancing and hash chains are abstracted "
-                "(the model keeps iteration order, slots, free lists, blocks; lookups are by payload) - their behaviour is the subject of C01/C02; "
-                "comparisons / hashing of elements are not events of the log (the harness still counts any use of a destroyed object). "
+                "(the model keeps iteration order, slots, free lists, blocks; lookups are by payload) - their behaviour is the subject of C01/C02. "
+                "'Never touched after its destruction' is a THEOREM only for the sources of copy constructions and assignments (the only reads in the event log); "
+                "key comparisons, hashing and == walks of the lookup code are not events: that they touch no destroyed object is checked on the real code by the "
+                "harness ledger (counter u) only - the model contributes linked_objects_live (everything reachable through a container is live). "
                 "MultiMap::insert(hint) is driven only with keys not yet present (inside a run of equal keys the position depends on the tree shape). Not driven: List::sort (swaps "
                 "payloads between nodes), find() as an operation, Array(capacity)-constructor variants beyond newcap. Allocation never fails; "
                 "element constructors do not throw. The model mirrors the REPAIRED code (fixes/life/0001..0004: D2 self-assignment, D3 Array alias, "
@@ -37,9 +39,9 @@ MANIFEST = {
                      "correspondence model vs real headers with an element/allocator ledger and an independent Python reference",
         "text": "Theorems in lean/Nstd/Life/Props.lean, all for EVERY history incl. a = a, a.append(a[i]), a.resize(n, a[i]), a.append(&a[i], n), a.append(a), "
                 "l.append/prepend/insert(l), m.insert(k, *it), m.insert(m), s.append(s), s.remove(s): lifecycle_ok (complete event log incl. destructors accepted "
-                "by the checker: per slot construct (assign|read)* destroy, sources live, blocks allocated once / freed once with nothing live inside, "
+                "by the checker: per slot construct assign* destroy, sources of copies/assignments live, blocks allocated once / freed once with nothing live inside, "
                 "nothing live at the end; the destructors are always defined), exactly_once (per location #constructions = #destructions, every block allocated at most once "
-                "and freed as often as allocated), lifecycle_prefix_ok, no_fault (no operation of a reachable state takes a "
+                "and freed as often as allocated), linked_objects_live (every object reachable through a container is live and vice versa), lifecycle_prefix_ok, no_fault (no operation of a reachable state takes a "
                 "cannot-happen exit), blocks_released_only_by_destructor, copy_fresh(+_arr) (distinct variables never share a slot/storage), "
                 "copy_equal_list / _array / _node (right after copy construction or assignment the destination has the contents of the source, all copyable kinds), keys_ok, "
                 "copy_independent(+_arr) (an operation leaves every container it does not target unchanged, slots and abstract value), assign_self_noop, "
@@ -54,9 +56,15 @@ MANIFEST = {
         "design_ref": "DESIGN.md 3/C04",
     },
     "C05": {
-        "technique": "Lean 4 proof over all operation histories of the slot-level model (an element leaves its slot only by being destroyed; swap hands "
-                     "slots over; pool elements are constructed in place and never copied) + differential correspondence on object identity",
-        "text": "Theorems in lean/Nstd/Life/PropsStable.lean: stable (for every history, every further operation and every element of List, Map, MultiMap, "
+        "technique": "Lean 4 proof, two layers: (frame) over all operation histories of the slot-level model of area Life - in which slots an operation may "
+                     "construct / destroy / assign, which elements it removes, that nothing else is touched; (mechanism) the relinking code itself in the models that contain "
+                     "it - AVL rotations and two-children removal (area Avl), the prev/next surgery of List at chain and pointer level (area Seq), the bucket chains of the "
+                     "hash containers (area Hash model, proved in Nstd/Life/HashStable.lean) - never copies an item into another node; "
+                     "+ differential correspondence on object identity",
+        "text": "Theorems in lean/Nstd/Life/PropsStable.lean (frame; in this model an element IS its slot, so these say which slots an operation touches): stable_sharp "
+                "(headline: for every history, operation and element - the operation does not remove it and it is Kept: same slot, no construction/destruction there, key unchanged; "
+                "or the operation removes it (Op.removes, from the executed remove/clear/destructor steps) and all its members were destroyed), stable_step (per micro step), "
+                "removes_list_remove / insertions_remove_nothing (what Op.removes means), keyless_payload_kept, stable (weak corollary: for every history, every further operation and every element of List, Map, MultiMap, "
                 "HashMap, HashSet, PoolList, PoolMap: the element is still an item in the SAME slot of a container of its kind, no object was constructed "
                 "or destroyed in that slot during the operation and its key is unchanged - or all its member objects were destroyed; never relocated), "
                 "insert_keeps_all and remove_keeps_others (sharp per-step forms: an insertion removes/relocates nothing, remove(iterator) destroys exactly "
@@ -66,7 +74,9 @@ MANIFEST = {
                 "headers after every op, for every element of all seven containers, that it is the same object (serial) at the address recorded in the ledger, "
                 "that it still carries the key / payload it had when first seen (an element assigned into another node counts as moved), that the iterator saved "
                 "when it was first seen and find(key) still designate it, or that it was constructed by this very op; assignments to and copies from "
-                "container-held objects are counted per op and compared with model and reference; the Python reference predicts exactly which elements are new; long histories with long-lived elements and the three "
+                "container-held objects are counted per op and compared with model and reference. "
+                "Theorems in lean/Nstd/Life/PropsStableMech.lean (mechanism; re-statements, proved by the owning areas' theorems): map_items_relink (Avl.ids_stable_step), "
+                "list_insert_/insertList_/remove_relinks, list_swap_hands_over, list_ptr_insert / _remove / _swap (Seq.never_move_*, Seq.ptr_*), hash_items_relink (HashStable.items_stable_step); the Python reference predicts exactly which elements are new; long histories with long-lived elements and the three "
                 "client patterns (Server pools, Future contexts, Callback slots).",
         "note": _COMMON_NOTE,
         "design_ref": "DESIGN.md 3/C05",
